@@ -139,6 +139,7 @@ func runC02(c *Ctx) {
 	c.errorNames(ia, reg)
 	c.operandRegions(ia, reg)
 	c.overflowPromotion(reg)
+	c.intArith(reg)
 	c.sharingRules(ia, reg)
 	c.identityRule(ia)
 }
@@ -982,4 +983,53 @@ func (c *Ctx) overflowPromotion(reg *registry) {
 		txt := nodeString(c, fd.Body)
 		c.check(strings.Contains(txt, "x == math.MinInt") && strings.Contains(txt, "-Real(x)"), "OP-OVERFLOW", c.fname(f), "abs: the most negative integer is promoted to a real", fd.Pos(), "", "abs does not treat the most negative integer separately (its negation overflows)")
 	}
+}
+
+// intArith (OP-INTARITH): every addition, subtraction, multiplication and negation of an integer
+// that derives from an operand, in a registered operator, either cannot wrap (fact engine, with
+// the guards that dominate it) or belongs to the arithmetic operators whose overflow predicate is
+// decided by OP-OVERFLOW.
+func (c *Ctx) intArith(reg *registry) {
+	tested := map[string]bool{"add": true, "sub": true, "mul": true, "abs": true}
+	n := 0
+	for _, e := range reg.builtins() {
+		if tested[e.key] {
+			continue
+		}
+		f := e.fn
+		fi := newFuncInfo(f)
+		eachInstr(f, func(ins ssa.Instruction) {
+			bo, ok := ins.(*ssa.BinOp)
+			if !ok || (bo.Op != token.ADD && bo.Op != token.SUB && bo.Op != token.MUL) {
+				return
+			}
+			if _, _, isInt := isIntType(bo.Type()); !isInt {
+				return
+			}
+			// only values that come from the operand stack matter (not indices and lengths)
+			ia := c.interp()
+			if !fromOperand(bo.X, ia.T) && !fromOperand(bo.Y, ia.T) {
+				return
+			}
+			n++
+			a, b := fi.term(bo.X), fi.term(bo.Y)
+			var r Lin
+			switch bo.Op {
+			case token.ADD:
+				r = a.add(b)
+			case token.SUB:
+				r = a.sub(b)
+			default:
+				r = fi.term(bo)
+			}
+			okNo := fi.noOverflow(bo, r)
+			if !okNo {
+				if lo, hi := typeRange(bo.Type()); lo != nil {
+					okNo = fi.proveWithJoins([]Lin{r.sub(konstBig(lo)), konstBig(hi).sub(r)}, bo.Block(), bo, 3)
+				}
+			}
+			c.check(okNo, "OP-INTARITH", c.fname(f), e.key+": "+c.valShape(bo)+" cannot wrap", bo.Pos(), "entailed by the dominating guards", e.key+" computes "+c.valShape(bo)+" on operand values without a guard that keeps it inside the integer range: for operands near the ends of the range the result wraps around")
+		})
+	}
+	c.note("OP-INTARITH: %d operand-derived integer operations inspected", n)
 }
